@@ -40,12 +40,9 @@ func (s *session) oracleC07(before, after *snap, b *mblock, cls string) {
 		what := fmt.Sprintf("branch to %s (%s) at height %d is fully stored and valid and forks at height %d (LIB %d), but the best block is %s/%d",
 			x.name, x.id(), x.no, fno, s.libNow, tk(after.best.BlockHash()), after.best.BlockNo())
 		switch {
-		case s.rootStale:
-			known = knownC07Stale
-			what += "; the state root was left at the fork side by a failed roll-forward"
-		case s.reorgFail && s.hasInvalidDescendant(x, stored):
+		case s.anyErr && s.hasInvalidDescendant(x):
 			known = knownC07Prefix
-			what += "; a reorganisation to an invalid descendant of it failed and the valid prefix was not adopted"
+			what += "; the arrival that completed it also resolved an invalid orphan above it and failed as a whole: the valid prefix was not adopted"
 		}
 		s.fail("no-better-branch", what, known)
 		break
@@ -109,20 +106,18 @@ func (s *session) oracleC07(before, after *snap, b *mblock, cls string) {
 	_ = g
 }
 
-func (s *session) hasInvalidDescendant(x *mblock, stored []*mblock) bool {
-	for _, d := range stored {
-		if d == x {
-			continue
-		}
-		br, _ := s.branchOf(d)
-		for i, a := range br {
-			if a == x {
-				// d descends from x: is some block between invalid?
-				for _, m := range br[:i] {
-					if m.kind != kValid || m.altered {
-						return true
-					}
-				}
+// hasInvalidDescendant: some block that was offered to the node descends from x through an invalid block (itself or a
+// block between): the history shape of the known finding (the invalid block was resolved as an orphan while x's branch
+// was being connected, the whole arrival failed, x's branch was not adopted).
+func (s *session) hasInvalidDescendant(x *mblock) bool {
+	for d := range s.offered {
+		inv := false
+		for a := d; a != nil && a != x; a = a.parent {
+			if a.kind != kValid || a.altered {
+				inv = true
+			}
+			if a.parent == x && inv {
+				return true
 			}
 		}
 	}
@@ -135,9 +130,6 @@ func (s *session) referenceCheck(when string) {
 	sn := s.snapshot()
 	if !sn.whole || len(sn.path) < 2 {
 		return
-	}
-	if !bytes.Equal(sn.root, sn.best.GetHeader().GetBlocksRootHash()) && s.rootStale {
-		return // already reported as the stale-root finding
 	}
 	s.e.run.Count("reference-node-runs")
 	ref := s.e.w.newNode(100, 128)
